@@ -7,7 +7,12 @@ LEVEL = "proof"
 # harness.cpp is compiled as 6 translation units in parallel (at most 4 at a time) by props/C20/pcxx.py
 _PCXX = os.path.join(os.path.dirname(os.path.abspath(__file__)), "pcxx.py")
 HARNESSES = [{"name": "main", "src": "harness.cpp", "compiler": _PCXX,
-              "flags": ["-O1", "-DTETL_ENABLE_CONTRACT_CHECKS=1", "-DC20_NPARTS=6"]}]
+              "flags": ["-O1", "-DTETL_ENABLE_CONTRACT_CHECKS=1", "-DC20_NPARTS=6"]},
+             # thorough tier: the same cases through an AddressSanitizer + UndefinedBehaviorSanitizer build (a report aborts
+             # the case: `crash`); catches use of a destroyed target / dangling reference that the legs cannot print
+             {"name": "san", "src": "harness.cpp", "compiler": _PCXX, "thorough_only": True,
+              "flags": ["-O1", "-DTETL_ENABLE_CONTRACT_CHECKS=1", "-DC20_NPARTS=6",
+                        "-fsanitize=address,undefined", "-fno-sanitize-recover=all"]}]
 
 RULE = ("the complete value-category tables (get / pair get / forward / forward_like / invoke on function objects, "
         "member-function and member-data pointers with object, derived, reference_wrapper and pointer receivers / "
@@ -306,6 +311,7 @@ def gen_values(tier, rng):
         b = [rng.randint(-50, 50) for _ in range(n)]
         out.append("tswap %s %s" % (zl(a), zl(b)))
         out.append("tget %s" % zl(a))
+        out.append("tinit %d" % rng.randint(-60, 60))
         out.append("tapply %s" % zl(a))
     # tuple_cat: every shape of up to three operands of arity <= 3
     ctr = 0
